@@ -110,6 +110,33 @@ impl Mon {
     }
 }
 
+/// Chains nested through their LEFT-most operand: every level adds `links` tree levels on one path while
+/// the parser recursion only grows by one.
+fn left_deep_text(container: &str, link: &str, levels: usize, links: usize) -> String {
+    let (open, close) = match container {
+        "block" => ("{ ", " }"),
+        "tuple" => ("#(", ", 1)"),
+        "list" => ("[", "]"),
+        _ => ("case 1 { _ -> ", " }"),
+    };
+    let link = match link {
+        "plus" => " + a",
+        "field" => ".b",
+        "call" => "()",
+        _ => " |> a",
+    };
+    let mut s = String::from("fn f() { ");
+    s.push_str(&open.repeat(levels));
+    s.push('a');
+    for _ in 0..levels {
+        s.push_str(&link.repeat(links));
+        s.push_str(close);
+    }
+    s.push_str(&link.repeat(links));
+    s.push_str(" }\n");
+    s
+}
+
 fn one_mode(argv: &[String]) -> ! {
     let mut text = None;
     let mut i = 0;
@@ -125,6 +152,12 @@ fn one_mode(argv: &[String]) -> ! {
                 let p: Vec<&str> = argv[i + 1].split(':').collect();
                 let c = CHAINS.iter().find(|c| c.name == p[0]).expect("chain");
                 text = Some(textgen::chain_text(c, p[1].parse().unwrap()));
+            }
+            "--leftdeep" => {
+                // CONTAINER:LINK:LEVELS:LINKS - a chain whose left-most operand is a container holding a chain
+                // whose left-most operand is a container ... (`{ { a + a + .. } + a + .. } + a + ..`)
+                let p: Vec<&str> = argv[i + 1].split(':').collect();
+                text = Some(left_deep_text(p[0], p[1], p[2].parse().unwrap(), p[3].parse().unwrap()));
             }
             _ => {}
         }
@@ -501,6 +534,17 @@ fn run(args: Args) -> Report {
         for c in CHAINS {
             for &n in lens {
                 jobs.push(("--chain".into(), format!("{}:{}", c.name, n), format!("chain:{}", c.name)));
+            }
+        }
+        // chains nested through their left-most operand (a by-product report of the ninth round: the chain bound
+        // counted the links of the chains that are OPEN while a sub-expression is parsed; the left-most operand
+        // is complete before its chain takes the first link)
+        let nest: &[(usize, usize)] = if thorough { &[(2, 1000), (3, 2000), (5, 2000), (10, 2000), (40, 2000), (100, 2000), (120, 500)] } else { &[(2, 1000), (3, 2000), (10, 2000), (40, 2000), (100, 1000)] };
+        for container in ["block", "tuple", "list", "case"] {
+            for link in ["plus", "field", "call", "pipe"] {
+                for &(l, c) in nest {
+                    jobs.push(("--leftdeep".into(), format!("{container}:{link}:{l}:{c}"), format!("left-deep:{container}:{link}")));
+                }
             }
         }
         for (i, (kind, spec, shape)) in jobs.iter().enumerate() {
